@@ -10,7 +10,9 @@ Correspondence (model `Defs` vs the real code, same generated inputs):
 Direct oracle (the property statement computed independently on strings with the harness's own parser):
   expected expansion by substitution from the definition text; expand twice = once; shrink after expand = original;
   every history equals the composition of the two string rewrites and never raises; copies are independent;
-  a Def-expand group is accepted iff its content equals the expansion up to sibling order; a definition that is
+  a Def-expand group is accepted iff its content equals the expansion up to sibling order — in particular the
+  group expand_defs() produces and every sibling permutation of it, for definitions whose placeholder has siblings
+  equal to it up to the '#' text and values on both sides of them in the case-folded order; a definition that is
   accepted satisfies every listed condition and a duplicate is reported and ignored; gathered definitions
   (process_def_expands) of expanded strings agree with the dictionary.
 """
@@ -34,6 +36,7 @@ THEOREMS = [
     "HedVerif.C09.defexpand_order_counterexample",
     "HedVerif.C09.sort_perm",
     "HedVerif.C09.sortG_perm_partial",
+    "HedVerif.C09.sortG_perm_needs_hypothesis",
     "HedVerif.C09.defexpand_perm_partial",
     "HedVerif.C09.acceptString_good",
 ]
@@ -609,7 +612,12 @@ def check_history(ctx, env, def_strings, hed, ops, model=None):
             have = st["v"].count("HED_DEF_EXPAND_INVALID")
             ctx.count("oracle-defexpand-groups-checked")
             if want != have:
-                ctx.violation("defexpand-accepted-iff-equal-up-to-sibling-order", case,
+                # fewer expected than reported: a group equal to the expansion up to sibling order (the one
+                # expand_defs() produces, or a sibling permutation of it) is rejected; more: a different one accepted
+                clause = ("validation-accepts-own-expansion-and-every-sibling-permutation-of-it" if have > want
+                          else "validation-rejects-def-expand-group-that-differs-from-expansion")
+                ctx.count("oracle-" + clause)
+                ctx.violation(clause, case,
                               {"step": k, "string": st["s"], "invalid_expected": want, "invalid_reported": have,
                                "codes": st.get("codes")})
                 return
@@ -709,6 +717,58 @@ BASE_OBJECTS = [
 ]
 
 
+# Definitions whose placeholder tag (or a sub-group holding it) has siblings that differ from it only in the text at
+# the '#' position: the stored content is sorted with '#' in place, so after plugging a value the placeholder may
+# belong before or after such a sibling in the canonical (case-folded) order.  Values on both sides of every such
+# sibling, equal to it, and differing from it only in case.
+PLACEHOLDER_ORDER = [
+    ("(Definition/Cue/#, (Label/#, Label/Middle, Sensory-event))", "Cue",
+     ["Alpha", "Zulu", "Middle", "middle", "MIDDLE", "Middl", "Middlez", "alpha", "zulu", "0"]),
+    ("(Definition/Two/#, (Label/Beta, Label/#, Label/delta, Red))", "Two",
+     ["Alpha", "Charlie", "echo", "beta", "BETA", "Delta", "DELTA", "Beta", "delta"]),
+    ("(Definition/Sp/#, (Speed/# mph, Speed/5 mph, Red))", "Sp", ["3", "7", "50", "5", "5.0", "05"]),
+    ("(Definition/Grp/#, ((Label/#, Red), (Label/Middle, Red), Blue))", "Grp",
+     ["Alpha", "Zulu", "middle", "MIDDLE", "Middle", "Middlez"]),
+    ("(Definition/Deep/#, (Item, ((ID/#), Circle), ((ID/k5), Circle), ((ID/K7, Red))))", "Deep",
+     ["a1", "k4", "k5", "K5", "k6", "K8", "z9"]),
+]
+
+
+def sibling_permutations(tree, cap):
+    """all orderings of the siblings at every level (own enumeration), at most `cap` of them, identity first"""
+    def perms(node):
+        kids = [[k] if isinstance(k, str) else perms(k) for k in node]
+        out = []
+        for order in itertools.permutations(range(len(node))):
+            for combo in itertools.product(*[kids[i] for i in order]):
+                out.append(list(combo))
+                if len(out) >= 4 * cap:
+                    return out
+        return out
+    allp = perms(tree)
+    step = max(1, len(allp) // cap)
+    return allp[::step][:cap]
+
+
+def placeholder_order_work(env, cap):
+    """histories for the placeholder-order family: the expansion produced by expand_defs() is validated, shrunk,
+    expanded and validated again; every sibling permutation of the expected expansion (built by the harness from
+    the definition text) is validated as written"""
+    work = []
+    for dstr, name, values in PLACEHOLDER_ORDER:
+        defs = [dstr, "(Definition/B, (Green))"]
+        refd, _ = ref_accept(defs, env.takes_value_tag, env.bad_prop_tag)
+        assert name.casefold() in refd
+        for v in values:
+            for hed in (f"Def/{name}/{v}", f"(Def/{name}/{v}, Green), Def/B"):
+                work.append((defs, hed, ["expand", "validate", "shrink", "expand", "validate"]))
+            exp = ref_expand(parse(f"Def/{name}/{v}"), refd)
+            for pt in sibling_permutations(exp, cap):
+                work.append((defs, render(pt), ["validate"]))
+                work.append((defs, render([["Blue"] + pt]), ["validate", "shrink", "expand", "validate"]))
+    return work
+
+
 def histories(ctx, env, work):
     """work: list of (def_strings, hed, ops); one model batch per chunk"""
     from hed import HedString
@@ -766,6 +826,9 @@ def run(ctx):
         n = rng.choice([1, 2, 3, 4, 5, 6, 6])
         ops = [rng.choice(["expand", "expand", "shrink", "shrink", "copy", "validate", "str", "sorted"]) for _ in range(n)]
         work.append((defs, hed, ops))
+    pow_ = placeholder_order_work(env, 12 if quick else 48)
+    ctx.extra["placeholder_order_family"] = {"definitions": len(PLACEHOLDER_ORDER), "histories": len(pow_)}
+    work += pow_
     histories(ctx, env, work)
     # (c) frames, (d) gathering
     for _ in range(40 if quick else 400):
